@@ -1,7 +1,7 @@
 """C15 — gradients through TT operations match the dense derivative (autograd model, DESIGN 4 C15)."""
 
 EXPRS = ['full', 'add', 'sub_mul', 'scalar_ops', 'neg_kron', 'sum_all', 'sum_index', 'dot', 'dot_sq', 'norm_sq', 'norm', 'matvec', 'matmat', 'bilinear',
-         'getitem', 'apply_mask', 'cat', 'pad', 'diag', 'mprod', 'mprod_list', 'depth3', 'scale_by_dot', 'scale_by_sum', 'add_tracked_scalar', 'copy_forms']
+         'getitem', 'apply_mask', 'cat', 'pad', 'pad_short', 'diag', 'mprod', 'mprod_list', 'depth3', 'scale_by_dot', 'scale_by_sum', 'add_tracked_scalar', 'copy_forms']
 
 
 def cases(tier, seed):
